@@ -4,7 +4,9 @@
 (* one step of a seeded random timed history driven through the real       *)
 (* POST /control/login handler: production parameters (5 attempts, 15 min) *)
 (* and other limits / block durations, four addresses, time in             *)
-(* milliseconds.  A line carries the action, the reply and the projected   *)
+(* milliseconds; a request may claim (headers) no address, the address of  *)
+(* another client, one inside or one outside the trusted-proxy set.        *)
+(* A line carries the action, the reply and the projected                  *)
 (* failed-attempt table before and after it; the line is accepted iff      *)
 (* RateLimit.tla's own transition operators (TableOutcomes,                *)
 (* TableAfterTick, TableMatches) admit it.  Consecutive lines must be      *)
@@ -20,7 +22,7 @@ Trace == ndJsonDeserialize("trace.ndjson")
 W == 60000
 
 \* RateLimit.tla's operators; its state variables are not used here.
-RL == INSTANCE RateLimit WITH Addrs <- {}, MaxAttemptsSet <- {}, BlockDurSet <- {},
+RL == INSTANCE RateLimit WITH Addrs <- {}, Claims <- {}, MaxAttemptsSet <- {}, BlockDurSet <- {},
                               Window <- W, MaxTick <- 1,
                               n <- 0, b <- 0, rec <- <<>>, clock <- 0, evals <- 0,
                               hit <- <<>>, streak <- <<>>, burst <- <<>>, out <- <<>>
@@ -40,7 +42,7 @@ LineOk(i) ==
     /\ CASE L.k = "reset"   -> Empty(pre) /\ Empty(post) /\ L.now = 0
          [] L.k = "attempt" ->
                 /\ L.a \in DOMAIN pre
-                /\ \E o \in RL!TableOutcomes(pre, L.a, L.ok, L.now, L.n, L.b) :
+                /\ \E o \in RL!TableOutcomes(pre, L.a, L.c, L.ok, L.now, L.n, L.b) :
                       o.res = L.res /\ RL!TableMatches(o.tbl, post, L.now)
          [] L.k = "tick"    -> L.d >= 1 /\ RL!TableMatches(RL!TableAfterTick(pre, L.now), post, L.now)
          [] OTHER           -> FALSE
